@@ -2,7 +2,7 @@
 What is logic is proved in Coq (coq/props/C07.v: storage of both ring buffers never changes size under
 any history; a growable vector driven by a fixed push/pop/clear script stops reallocating after the
 first run — the processor's steady state).  Allocator behaviour itself cannot be exhibited by a Coq
-model; it is OBSERVED: a counting GlobalAlloc around the allocation-free API surface (51 scenarios,
+model; it is OBSERVED: a counting GlobalAlloc around the allocation-free API surface (66 scenarios,
 each constructed, warmed up once, then run K more times with varied inputs)."""
 import json, os
 import framework as F
@@ -11,7 +11,7 @@ PROP = "C07"
 META = dict(
     category="other",
     technique="Coq size/capacity theorems (ring-buffer storage constant, vector steady state) + counting-allocator observation of the API surface",
-    text="Coq proves the logical half: every history of Bounded/Fixed operations leaves the backing storage length unchanged (corollary of the C06 refinement), and a growable vector driven by a fixed push/pop/clear script never reallocates on the second and later runs (the Processor's stack/inputs vectors: steady state after one process call). That an operation performs no allocation is a runtime fact no Coq model can exhibit; it is observed with a counting GlobalAlloc over 51 scenarios covering sample/frame/slice/ring-buffer/peak/RMS/envelope/interpolation/window/signal sources and adaptors/fork/buffered/converter/windower/graph processing with stock nodes, with the documented exceptions (bus, by_rc creation, boxed conversions) checked for boundedness/balance instead. This is labelled 'other', not proof.",
+    text="Coq proves the logical half: every history of Bounded/Fixed operations leaves the backing storage length unchanged (corollary of the C06 refinement), and a growable vector driven by a fixed push/pop/clear script never reallocates on the second and later runs (the Processor's stack/inputs vectors: steady state after one process call). That an operation performs no allocation is a runtime fact no Coq model can exhibit; it is observed with a counting GlobalAlloc over 66 scenarios covering sample/frame/slice/ring-buffer/peak/RMS/envelope/interpolation/window/signal sources and adaptors/fork/buffered/converter/windower/graph processing with stock nodes, with the documented exceptions (bus, by_rc creation, boxed conversions) checked for boundedness/balance instead. This is labelled 'other', not proof.",
     note="Trusted: Coq kernel for the capacity theorems; for the allocator half the harness's scenario list is the coverage: an allocation reachable only through an API call or input class the scenarios do not exercise is missed. petgraph/std Vec growth is modelled only as (len, cap).",
     design="6/C07")
 
@@ -23,7 +23,9 @@ ZERO = ["sample_conv", "sample_amp", "frame_ops2", "frame_ops32", "slice_views",
         "src_basic", "src_osc", "src_hz", "src_noise", "src_iter",
         "adaptors_a", "adaptors_b", "adaptors_c", "delay_take", "interleaved", "by_ref",
         "fork_by_ref", "fork_by_rc_steady", "buffered_next", "buffered_frames", "sig_rms", "sig_env",
-        "graph_stable", "graph_nested"]
+        "graph_stable", "graph_nested",
+        "ring_bounded_index", "ring_bounded_raw", "frame_channels_mut", "interp_direct", "lift", "conv_source_access",
+        "rectifier_structs", "window_direct", "slice_trait_forms"]
 
 
 def verdict(name, k, v):
@@ -43,6 +45,25 @@ def verdict(name, k, v):
             return f"processor capacities changed after the first call: {caps1} -> {caps2}"
         if name == "graph_stock" and caps0 != caps1:
             return f"a processor built with_capacity(32) grew on an 8-node graph: {caps0} -> {caps1}"
+        return None
+    if name in ("graph_fan_in_1500", "graph_chain_1500", "graph_alternating_outputs"):
+        caps1, caps2 = v[3:5], v[5:7]
+        if (a, r, d) != (0, 0, 0):
+            return f"graph processing allocated after the first process call(s): {a}/{r}/{d}"
+        if caps1 != caps2:
+            return f"processor capacities changed in steady state: {caps1} -> {caps2}"
+        return None
+    if name in ("bus_drop_caught_up", "bus_drop_laggard"):
+        maxb, endb = v[3], v[4]
+        if (a, r, d) != (0, 0, 0):
+            return f"bus pulled in step after a drop still allocates: {a}/{r}/{d} (backlog max {maxb}, end {endb})"
+        if maxb > 1 or endb > 1:
+            return f"bus backlog keeps growing after an output was dropped although the live outputs are pulled in step: max {maxb}, end {endb}"
+        return None
+    if name == "bus_reattach":
+        maxb, endb = v[3], v[4]
+        if maxb > 1 or endb > 1:
+            return f"bus backlog grows across re-attachments although outputs are pulled in step: max {maxb}, end {endb}"
         return None
     if name in ("bus_lockstep", "bus_laggard"):
         maxb, endb = v[3], v[4]
